@@ -41,6 +41,25 @@ def main():
                 fails.append(f"line -> impedance -> line round trip ({idx}): bus voltages change by up to {d:.2e} pu")
         except Exception as e:
             fails.append(f"replace_impedance_by_line after replacing {idx}: {type(e).__name__}: {str(e)[:80]}")
+    # xward -> internal elements with a per-unit base other than 1; subnet of a 60 Hz network
+    for s_ in (1., 10.):
+        net = pp.create_empty_network(sn_mva=s_, f_hz=60.)
+        b = pp.create_buses(net, 4, 20.)
+        pp.create_ext_grid(net, b[0])
+        for f_, t_ in ((0, 1), (1, 2), (2, 3)):
+            pp.create_line_from_parameters(net, b[f_], b[t_], 4., .12, .11, 250., .6)
+        pp.create_load(net, b[3], 2., .5)
+        pp.create_xward(net, b[1], 1., .3, .2, .1, 2., 4., 1.01)
+        ref2 = copy.deepcopy(net); pp.runpp(ref2)
+        sub = pp.select_subnet(net, list(b))
+        pp.runpp(sub)
+        d = np.max(np.abs(sub.res_bus.vm_pu.values - ref2.res_bus.vm_pu.values))
+        if d > 1e-8:
+            fails.append(f"select_subnet of all buses (f_hz=60, sn_mva={s_}): bus voltages change by up to {d:.2e} pu")
+        pp.replace_xward_by_internal_elements(net); pp.runpp(net)
+        d = np.max(np.abs(net.res_bus.vm_pu.values[:4] - ref2.res_bus.vm_pu.values))
+        if d > 1e-8:
+            fails.append(f"replace_xward_by_internal_elements (sn_mva={s_}): bus voltages change by up to {d:.2e} pu")
     for f in fails:
         print("REPRODUCED:", f)
     if not fails:
